@@ -575,11 +575,32 @@ def FileType.ofSuffix (s : Str) : Option FileType :=
   else if s = ".xls".toList then some .xls else if s = ".md".toList then some .md
   else if s = ".csv".toList then some .csv else .none
 
-/-- How a definition reaches `convert`: an existing file (`str` / `PathLike`: stem and suffix of the
-name), `bytes`, a `BytesIO` whose stream position is `pos`, an open binary file at position `pos`, or
+/-- the last `.` of a file name: `(name[:i], name[i+1:])` for `i = name.rfind(".")` -/
+def splitLastDot (n : Str) : Option (Str × Str) :=
+  let r := n.reverse
+  match r.dropWhile (· ≠ '.') with
+  | [] => .none
+  | _ :: beforeRev => some (beforeRev.reverse, (r.takeWhile (· ≠ '.')).reverse)
+
+/-- `PurePath.stem` of a final path component (pathlib, Python 3.12): `name[:i]` if `0 < i < len(name) - 1`
+for `i = name.rfind(".")`, else the whole name — a leading dot (`.hidden`) and a trailing dot (`a.`)
+are not suffix separators, only the *last* suffix is removed (`a.tar.gz` → `a.tar`). -/
+def pathStem (n : Str) : Str :=
+  match splitLastDot n with
+  | some (b, a) => if b.isEmpty || a.isEmpty then n else b
+  | .none => n
+
+/-- `PurePath.suffix`: `name[i:]` under the same condition, else `""`. -/
+def pathSuffix (n : Str) : Str :=
+  match splitLastDot n with
+  | some (b, a) => if b.isEmpty || a.isEmpty then [] else '.' :: a
+  | .none => []
+
+/-- How a definition reaches `convert`: an existing file (`str` / `PathLike`: its final path
+component `name`), `bytes`, a `BytesIO` whose stream position is `pos`, an open binary file at position `pos`, or
 `str` text that is not a file name. -/
 inductive Channel
-  | path (stem suffix : Str)
+  | path (name : Str)
   | bytes
   | bytesIO (pos : Nat)
   | file (pos : Nat)
@@ -599,7 +620,7 @@ suffix hint and a stem.  A caller's `BytesIO` is passed through as it is and the
 `definition.read()`, i.e. from its current position. -/
 def getDefinitionData (ch : Channel) (content : Str) : Definition :=
   match ch with
-  | .path stem suffix => ⟨content, FileType.ofSuffix suffix, some stem⟩
+  | .path name => ⟨content, FileType.ofSuffix (pathSuffix name), some (pathStem name)⟩
   | .file pos => ⟨content.drop pos, .none, .none⟩
   | _ => ⟨content, .none, .none⟩
 
